@@ -439,12 +439,14 @@ TIERS = {
               ('args', dict(n_pos=1, n_kw=1)),
               ('strings', dict(conditions=[('passthrough', 'confirmed'), ('reach_passthrough', 'refuted'),
                                            ('object_marker', 'confirmed')], timeout=60))],
-    'thorough': [('shape', dict(max_procs=2, max_ents=3, max_comps=2)),
+    'thorough': [('shape', dict(max_procs=2, max_ents=2, max_comps=2)),
+                 ('shape', dict(max_procs=1, max_ents=3, max_comps=1, n_variants=1)),
                  ('shape', dict(max_procs=0, max_ents=4, max_comps=1, small_ids=True, n_classes=2, n_variants=1),
                   dict(required=['generator-id', 'auto-id', 'callbacks'])),
                  ('args', dict(n_pos=2, n_kw=1)),
                  ('strings', dict(conditions=[('passthrough', 'confirmed'), ('reach_passthrough', 'refuted'),
-                                              ('object_marker', 'confirmed'), ('object_marker_long', 'confirmed')],
+                                              ('object_marker', 'confirmed'), ('object_marker_long', 'confirmed'),
+                                              ('object_marker_xl', 'confirmed')],
                                   timeout=240))],
 }
 BUDGET_S = {'quick': 200, 'thorough': 1500}
@@ -464,7 +466,7 @@ RULE = ('one evaluation = one feasible path (one description) or one CrossHair p
         'processors/explicit ids/automatic ids/handler callbacks or an argument of a resolving kind; CrossHair paths count as non-trivial')
 BOUNDS = {'quick': 'shape: <=1 processor, <=2 entities, <=1 component, 3 argument variants, 5 id kinds, file and dict route; <=3 entities with generator-range ids; '
                    'args: <=1 positional + <=1 keyword slot over 15 kinds x 3 attachment points; strings: unbounded (pass-through), |name|<=3',
-          'thorough': 'shape: <=2 processors, <=3 entities, <=2 components; args: <=2 positional + <=1 keyword; strings: unbounded, |name|<=3 and <=6'}
+          'thorough': 'shape: <=2 processors, <=2 entities, <=2 components; <=1 processor, <=3 entities, <=1 component; <=4 entities with generator-range ids; args: <=2 positional + <=1 keyword; strings: unbounded (pass-through); ${name} for |name|<=3, <=6 and <=16'}
 ASSUMPTIONS = [
     'references nested inside lists/dicts are not resolved (only top-level positions, by design)',
     'explicit entity ids are strings, ints >= 100, the falsy ids 0 and \'\', or the small ints 1,2,3 that the id generator would produce (entities without id must then get other ids)',
